@@ -31,6 +31,8 @@ pub struct TableEntry {
     pub csize: u32,
     pub dsize: u32,
     pub md5: [u8; 16],
+    /// extended table (flags 0x10): MD5 of the decoded chunk
+    pub dmd5: Option<[u8; 16]>,
 }
 
 #[derive(Debug, Clone)]
@@ -77,16 +79,17 @@ pub fn split(bytes: &[u8]) -> Result<(Container<'_>, Vec<Complaint>), Complaint>
     }
     let flags = bytes[8];
     let count = ((bytes[9] as usize) << 16) | ((bytes[10] as usize) << 8) | bytes[11] as usize;
-    if flags != 0x0F {
-        // the encoders under test only write the standard 24-byte table
-        return Err(("format:table-flags-not-0x0f", format!("flags {flags:#04x}")));
+    if flags != 0x0F && flags != 0x10 {
+        return Err(("format:table-flags-neither-0x0f-nor-0x10", format!("flags {flags:#04x}")));
     }
+    // standard entries: sizes + MD5 of the stored chunk; extended ones add the MD5 of the decoded chunk
+    let esz = if flags == 0x10 { 40 } else { 24 };
     if count == 0 {
         return Err(("format:table-with-zero-chunks", "chunk count 0 with a non-zero header size".into()));
     }
-    let want = 12 + 24 * count;
+    let want = 12 + esz * count;
     if header_size != want {
-        bad.push(("format:header-size-not-12-plus-24n", format!("header_size {header_size}, {count} chunks => {want}")));
+        bad.push(("format:header-size-not-12-plus-24n", format!("header_size {header_size}, {count} chunks of {esz} table bytes => {want}")));
     }
     if bytes.len() < want {
         return Err(("format:table-truncated", format!("{count} entries need {want} bytes, file has {}", bytes.len())));
@@ -94,8 +97,8 @@ pub fn split(bytes: &[u8]) -> Result<(Container<'_>, Vec<Complaint>), Complaint>
     let mut off = want; // data start per the formula; equals header_size when that is right
     let mut chunks = Vec::with_capacity(count);
     for i in 0..count {
-        let e = &bytes[12 + 24 * i..36 + 24 * i];
-        let entry = TableEntry { csize: be32(&e[0..4]), dsize: be32(&e[4..8]), md5: e[8..24].try_into().unwrap() };
+        let e = &bytes[12 + esz * i..12 + esz * (i + 1)];
+        let entry = TableEntry { csize: be32(&e[0..4]), dsize: be32(&e[4..8]), md5: e[8..24].try_into().unwrap(), dmd5: if esz == 40 { Some(e[24..40].try_into().unwrap()) } else { None } };
         let end = off.checked_add(entry.csize as usize).filter(|&x| x <= bytes.len());
         let Some(end) = end else {
             return Err((
